@@ -443,7 +443,8 @@ func (d *DistKeyGenerator) ProcessDeals(bundles []*DealBundle) (*ResponseBundle,
 			continue
 		}
 
-		if bundle.Public == nil || uint32(len(bundle.Public)) != d.c.Threshold {
+		if bundle.Public == nil || uint32(len(bundle.Public)) != d.c.Threshold ||
+			slices.Contains(bundle.Public, nil) {
 			// invalid public polynomial is clearly cheating
 			// so we evict him from the list
 			// since we assume broadcast channel, every honest player will evict
@@ -820,6 +821,12 @@ func (d *DistKeyGenerator) ProcessJustifications(bundles []*JustificationBundle)
 				d.evicted = append(d.evicted, bundle.DealerIndex)
 				d.c.Error("Public polynomial missing - evicting dealer", bundle.DealerIndex)
 				break
+			}
+			if justif.Share == nil {
+				// missing share - invalid justification - evict
+				d.evicted = append(d.evicted, bundle.DealerIndex)
+				d.c.Error("Missing share in justifications - evicting dealer", bundle.DealerIndex)
+				continue
 			}
 			// compare commit and public poly
 			commit := d.c.Suite.Point().Mul(justif.Share, nil)
